@@ -101,8 +101,9 @@ def finalOf (d : Doc) (r : Str × Str) : NV :=
 def stdlibKey : Str × Str := ("stdlib".toList, [])
 
 /-- what a scan must report, executable: `stdlib` at the toolchain / go version when there is one, and what every `require`
-line ends up as. MODEL SEMANTICS inside: `step` is the body of the extractor's `applyReplace` (replace directives are applied
-in file order to the current name, so `a => b`, `b => c` reports `c`), not Go's own replace semantics. -/
+line ends up as. MODEL SEMANTICS inside: `step` is the body of the extractor's `applyReplace` over `ordered d` (since fix 22707b48:
+the wildcard directives, matched against the module as required, then the version-specific ones). The go command's rule itself is
+`goFinal` / `expectedGo` below. -/
 def expected (d : Doc) : List NV :=
   dedup ((if stdlibVersion d ≠ [] then [⟨"stdlib".toList, stdlibVersion d⟩] else []) ++
     (d.requires.filter fun r => decide (stdlibVersion d = [] ∨ keyOf r ≠ stdlibKey)).map (finalOf d))
